@@ -7,7 +7,7 @@ PROPS = {
         "level": "exploration",
         "quick": [("A", 200000), ("B", 20000)],
         "thorough": [("A", 8000000), ("B", 1000000), ("C", 1000000)],
-        "probes": ["tombstone_created", "rehash_in_place", "resize_up", "shrink", "shrink_to_singleton", "small_table", "one_group_table", "multi_group_table", "tombstone_reused", "insert_at_full_load"],
+        "probes": ["tombstone_created", "rehash_in_place", "resize_up", "shrink", "shrink_to_singleton", "small_table", "one_group_table", "multi_group_table", "tombstone_reused", "insert_at_full_load", "probe_wrap", "first_bucket_full", "last_bucket_full", "insert_unique_unchecked", "index_op", "entry_or_default", "from_array"],
         "rule": "one evaluation = one simulated run: a seeded history of 10-400 HashMap operations over 3 map slots under a per-slot hash plan, every return value compared with an association-list model and the table dumped and swept after every step; non-trivial = the run contains at least one structural event (tombstone creation/reuse, in-place rehash, resize, shrink); distinct = distinct signatures (sequence of operation kinds + structural events), counted with a k-minimum-values sketch (exact below 4096)",
     },
     "C02": {
@@ -63,14 +63,14 @@ PROPS = {
         "level": "exploration",
         "quick": [("A", 150000), ("B", 20000)],
         "thorough": [("A", 5000000), ("B", 500000), ("D", 60000), ("E", 16)],
-        "probes": ["iter_clone_mid", "iter_fold_switch", "iter_default", "iter_after_exhaustion", "small_table", "one_group_table", "multi_group_table", "tombstone_created"],
+        "probes": ["iter_clone_mid", "iter_fold_switch", "iter_default", "iter_after_exhaustion", "small_table", "one_group_table", "multi_group_table", "tombstone_created", "probe_wrap", "first_bucket_full", "last_bucket_full", "drain_fold"],
         "rule": "one evaluation = one simulated run in which, in every reached state, iter/iter_mut/keys/values/values_mut/into_iter/into_keys/into_values/drain are driven by a plan (a x next, optional clone, then next/fold/for_each/count/last/nth, then calls after exhaustion) with size_hint/len checked at every step; non-trivial/distinct as for C01",
     },
     "C10": {
         "level": "exploration",
         "quick": [("A", 150000)],
         "thorough": [("A", 5000000), ("D", 60000), ("B", 500000), ("E", 16)],
-        "probes": ["early_drop_drain", "early_drop_extract", "tombstone_created", "multi_group_table", "small_table"],
+        "probes": ["early_drop_drain", "early_drop_extract", "tombstone_created", "multi_group_table", "small_table", "extract_size_hint", "drain_fold"],
         "rule": "one evaluation = one simulated run with retain / extract_if predicates answering true on an arbitrary PRNG-drawn subset (and mutating values), extract_if and drain dropped after k steps for sampled k; oracle: predicate called exactly once per element, kept/yielded sets exact, unvisited elements stay, drain leaves an empty usable collection holding the same block; non-trivial/distinct as for C01",
     },
     "C11": {
@@ -84,7 +84,7 @@ PROPS = {
         "level": "fault_enumeration",
         "quick": [("A", 150000)],
         "thorough": [("A", 5000000), ("D", 60000)],
-        "probes": ["refused_alloc", "capacity_overflow", "try_reserve_ok"],
+        "probes": ["refused_alloc", "capacity_overflow", "try_reserve_ok", "try_reserve_giant"],
         "rule": "one evaluation = one simulated run in which try_reserve is called in every reached state with amounts from {small, around 7/8*2^k, isize::MAX, usize::MAX, usize::MAX/size_of<T> +-1} under allocator refusal modes (refuse the 1st request / everything / above a byte limit); an operation makes at most one allocator request, so refusing request j=1 enumerates the fault positions; non-trivial/distinct as for C01",
     },
     "C13": {
@@ -98,14 +98,14 @@ PROPS = {
         "level": "exploration",
         "quick": [("A", 150000)],
         "thorough": [("A", 5000000), ("B", 500000), ("E", 16)],
-        "probes": ["entry_at_full_load", "entry_on_singleton", "entry_tombstone_saturated", "vacant_dropped", "rehash_in_place"],
+        "probes": ["entry_at_full_load", "entry_on_singleton", "entry_tombstone_saturated", "vacant_dropped", "rehash_in_place", "entry_or_default"],
         "rule": "one evaluation = one simulated run in which method chains of length <= 3 on entry, entry_ref, raw_entry_mut (from_key, from_key_hashed_nocheck, from_hash), raw_entry and rustc_entry are applied to present and absent keys in states steered to capacity()==len(), tombstone saturation and the unallocated singleton; the observation log of each chain must equal that of the same chain on the model; non-trivial/distinct as for C01",
     },
     "C15": {
         "level": "exploration",
         "quick": [("A", 100000)],
         "thorough": [("A", 3000000), ("B", 300000), ("E", 24)],
-        "probes": ["get_many_dup", "get_many_absent", "get_many_all_present"],
+        "probes": ["get_many_dup", "get_many_absent", "get_many_all_present", "get_many_unchecked"],
         "rule": "one evaluation = one simulated run issuing get_many_mut / get_many_key_value_mut with N = 0..4 requests including duplicates and absent keys, under plans colliding in position and tag bits, and (one third of the runs) an equality that matches several entries; oracle: request order, right entry per request (serial), pairwise distinct addresses, panic iff two requests resolve to one entry, sentinel writes land in the requested entries; non-trivial/distinct as for C01",
     },
     "C18": {
